@@ -12,6 +12,7 @@ from vf import core
 
 VERSION_A = '''from vfstalelib_{id} import LibCls
 from vfstalepkg_{id}.sub import SubCls
+from vfstalepkg_{id}.mid.deep import DeepCls
 
 
 class Arg1:
@@ -107,6 +108,14 @@ def uses_inner(a):
     return 1
 
 
+def uses_deep(a):
+    return 1
+
+
+def mixed(a):
+    return a
+
+
 def renamed(a, b):
     return a
 '''
@@ -126,9 +135,10 @@ MUTATIONS = {
     "class-name-now-function": ("uses_refunc", lambda s: s.replace("class Refunc:\n    pass\n", "def Refunc():\n    return 1\n")),
     "module-removed": ("uses_lib", lambda s: s.replace("from vfstalelib_{id} import LibCls\n", "")),
     "submodule-removed": ("uses_sub", lambda s: s.replace("from vfstalepkg_{id}.sub import SubCls\n", "")),
+    "intermediate-package-removed": ("uses_deep", lambda s: s.replace("from vfstalepkg_{id}.mid.deep import DeepCls\n", "")),
     "nested-class-removed": ("uses_inner", lambda s: s.replace("    class Inner:\n        pass\n", "    pass\n")),
 }
-VALID = ["keep1", "keep2", "K.keepm", "K.keepc", "renamed"]
+VALID = ["keep1", "keep2", "K.keepm", "K.keepc", "renamed", "mixed"]
 
 
 def cut_def(src, name):
@@ -154,6 +164,7 @@ def make_rows(mod, id_):
 
     lib = importlib.import_module(f"vfstalelib_{id_}")
     sub = importlib.import_module(f"vfstalepkg_{id_}.sub")
+    deep = importlib.import_module(f"vfstalepkg_{id_}.mid.deep")
     NoneType = type(None)
     T = {
         "keep1": [CallTrace(mod.keep1, {"a": int, "b": NoneType}, int), CallTrace(mod.keep1, {"a": str, "b": int}, str), CallTrace(mod.keep1, {"a": List[int], "b": NoneType}, List[int])],
@@ -175,6 +186,11 @@ def make_rows(mod, id_):
         "uses_lib": [CallTrace(mod.uses_lib, {"a": lib.LibCls}, int)],
         "uses_sub": [CallTrace(mod.uses_sub, {"a": Optional[sub.SubCls]}, int)],
         "uses_inner": [CallTrace(mod.uses_inner, {"a": mod.Outer.Inner}, int)],
+        "uses_deep": [CallTrace(mod.uses_deep, {"a": deep.DeepCls}, int), CallTrace(mod.uses_deep, {"a": List[deep.DeepCls]}, int)],
+        # one function with decodable rows and rows that are stale only through a class they mention
+        "mixed": [CallTrace(mod.mixed, {"a": int}, int), CallTrace(mod.mixed, {"a": str}, str)],
+        "mixed:stale-if:arg-class-removed": [CallTrace(mod.mixed, {"a": mod.Arg1}, mod.Arg1)],
+        "mixed:stale-if:return-class-removed": [CallTrace(mod.mixed, {"a": int}, mod.Ret1)],
     }
     return {q: [CallTraceRow.from_trace(t) for t in ts] for q, ts in T.items()}
 
@@ -228,6 +244,9 @@ def work(p):
         open(os.path.join(sd, f"vfstalelib_{id_}.py"), "w").write("class LibCls:\n    pass\n")
         open(os.path.join(sd, f"vfstalepkg_{id_}", "__init__.py"), "w").write("")
         open(os.path.join(sd, f"vfstalepkg_{id_}", "sub.py"), "w").write("class SubCls:\n    pass\n")
+        os.makedirs(os.path.join(sd, f"vfstalepkg_{id_}", "mid"))
+        open(os.path.join(sd, f"vfstalepkg_{id_}", "mid", "__init__.py"), "w").write("")
+        open(os.path.join(sd, f"vfstalepkg_{id_}", "mid", "deep.py"), "w").write("class DeepCls:\n    pass\n")
         sys.path.insert(0, sd)
         importlib.invalidate_caches()
         try:
@@ -235,7 +254,7 @@ def work(p):
             rows = make_rows(mod, id_)
         finally:
             sys.path.remove(sd)
-            for n in [mname, f"vfstalelib_{id_}", f"vfstalepkg_{id_}", f"vfstalepkg_{id_}.sub"]:
+            for n in [mname, f"vfstalelib_{id_}", f"vfstalepkg_{id_}", f"vfstalepkg_{id_}.sub", f"vfstalepkg_{id_}.mid", f"vfstalepkg_{id_}.mid.deep"]:
                 sys.modules.pop(n, None)
         # version B
         src_b = VERSION_A
@@ -248,12 +267,19 @@ def work(p):
             os.remove(os.path.join(sd, f"vfstalelib_{id_}.py"))
         if "submodule-removed" in case["kinds"]:
             os.remove(os.path.join(sd, f"vfstalepkg_{id_}", "sub.py"))
+        if "intermediate-package-removed" in case["kinds"]:
+            shutil.rmtree(os.path.join(sd, f"vfstalepkg_{id_}", "mid"))
         modfile = os.path.join(sd, mname + ".py")
         open(modfile, "w").write(src_b)
+        removed_target = bool(case.get("target_removed"))
         rng = random.Random(case["seed"])
         seq = []
         for q in case["valid"]:
             seq += [(r, False, None) for r in rows[q]]
+            for kind in MUTATIONS:
+                extra = rows.get(f"{q}:stale-if:{kind}")
+                if extra:
+                    seq += [(r, kind in case["kinds"], kind) for r in extra]
         for kind in case["kinds"]:
             seq += [(r, True, kind) for r in rows[MUTATIONS[kind][0]]]
         rng.shuffle(seq)
@@ -262,18 +288,34 @@ def work(p):
         db1, db2 = os.path.join(sd, "all.sqlite3"), os.path.join(sd, "valid.sqlite3")
         write_db(db1, [r for r, _, _ in seq])
         write_db(db2, [r for r, st, _ in seq if not st])
+        if removed_target:
+            # the traced module itself is gone: every one of its rows is stale
+            seq = [(r, True, "target-module-removed") for r, _, _ in seq]
+            write_db(db1, [r for r, _, _ in seq])
+            write_db(db2, [])
+            res.count("target_removed_cases")
         nstale = len({(r.module, r.qualname, r.arg_types, r.return_type, r.yield_type) for r, st, _ in seq if st})
         nvalid = sum(1 for _, st, _ in seq if not st)
         for cmd in case["cmds"]:
             res.count("evaluations")
             res.count("commands_" + cmd.replace(" ", "_"))
             argv = {"stub": ["stub", mname], "stub -v": ["-v", "stub", mname], "apply": ["apply", mname]}[cmd]
-            open(modfile, "w").write(src_b)
+            def reset():
+                if removed_target:
+                    if os.path.exists(modfile):
+                        os.remove(modfile)
+                else:
+                    open(modfile, "w").write(src_b)
+
+            def read_back():
+                return open(modfile).read() if os.path.exists(modfile) else ""
+
+            reset()
             r1 = run_cmd(sd, db1, argv)
-            after1 = open(modfile).read()
-            open(modfile, "w").write(src_b)
+            after1 = read_back()
+            reset()
             r2 = run_cmd(sd, db2, argv)
-            after2 = open(modfile).read()
+            after2 = read_back()
             wit = {"case": case, "cmd": cmd}
             for kind in case["kinds"]:
                 res.seen("mutation_kinds_failing_to_decode", kind)
@@ -331,6 +373,10 @@ def run(ck):
     for ks in ([kinds[:3], kinds[3:7], kinds] if quick else [list(c) for c in itertools.combinations(kinds, 2)][:20] + [kinds]):
         cid += 1
         cases.append({"id": f"{ck.seed}_{cid}", "seed": f"C10:{ck.seed}:{cid}", "kinds": ks, "valid": [], "cmds": ["stub", "stub -v", "apply"], "dup": False})
+    for j in range(2 if quick else 6):
+        cid += 1
+        cases.append({"id": f"{ck.seed}_{cid}", "seed": f"C10:{ck.seed}:{cid}", "kinds": [], "valid": ["keep1", "keep2"], "cmds": ["stub", "stub -v", "apply"],
+                      "dup": False, "target_removed": True})
     n = core.NPROC
     for r in core.pmap("vf.props.c10:work", [{"cases": cases[i::n]} for i in range(n)], timeout=3400):
         ck.merge(r)
@@ -340,6 +386,7 @@ def run(ck):
     ck.need("commands_stub", 30)
     ck.need("commands_apply", 30)
     ck.need("nothing_decodable_cases", 3)
+    ck.need("target_removed_cases", 2)
     ck.need("verbose_warnings_seen", 30)
     return ck.finish(
         rule="stores mixing valid rows of a fixture module with stale rows of every kind (function removed / now an int / a class / local / "
